@@ -194,4 +194,31 @@ theorem eval_total_variadic (items : Items) (fixed : List Ty) (elemT : Ty) (r : 
     · exact he a h
   simpa [evalInV, eval] using evalRows_total rows hw _ hi
 
+/-! ## Expression objects shared between positions, clauses and `In`s (Model/ShareC18.lean) -/
+
+/-- "Any accepts everything" for a SHARED object: an `AnyExpr` of the heap (e.g. `arg.AnyValues`) answers `true` on every
+    input after ANY script of `Resolve`/`Eval` calls on ANY objects of the heap — including `Resolve` of that very object
+    against other parameter types, directly or as a component of an `In`. -/
+theorem any_accepts_shared (h : Heap) (id : Nat) (hp : IsAny h id) (fuel fuel' : Nat) (script : List SStep)
+    (input : List (Option Val)) :
+    evalObj (fuel + 1) (stateS fuel' h script) id input = .ok true := by
+  obtain ⟨o, ho, hst, _⟩ := stateS_pres id fuel' script h hp
+  simp [evalObj, ho, hst]
+
+/-- Satisfiable: a heap with `AnyValues` and an `In(AnyValues, 5)` that refers to it. -/
+example : IsAny [⟨.any, .any⟩, ⟨.inE [.one (.ref 0), .one (.val (some (.int "int" true 5, 8)))], .inE []⟩] 0 :=
+  ⟨_, rfl, rfl, rfl⟩
+
+/-- `Eval` of any object leaves the whole heap as it was, … -/
+theorem eval_keeps_heap (fuel : Nat) (h : Heap) (id : Nat) (input : List (Option Val)) :
+    (stepS fuel h (.eval id input)).1 = h := rfl
+
+/-- … hence an `Eval` inserted anywhere into a script of interleaved `Resolve`/`Eval` calls on shared objects changes no
+    other observation (answers of earlier and later uses included). -/
+theorem eval_pure_shared (fuel : Nat) (h : Heap) (pre post : List SStep) (id : Nat) (input : List (Option Val)) :
+    runS fuel h (pre ++ .eval id input :: post) =
+      runS fuel h pre ++ .answered (evalObj fuel (stateS fuel h pre) id input) :: runS fuel (stateS fuel h pre) post := by
+  rw [runS_append]
+  rfl
+
 end C18
